@@ -9,6 +9,7 @@ import (
 	"os"
 	"sort"
 	"strings"
+	"time"
 
 	"github.com/rhysd/actionlint"
 
@@ -138,6 +139,8 @@ type RunOpts struct {
 	// Repeat > 1 executes the lint that many times in one process/run and
 	// reports the last execution (state carried between executions shows up as a difference).
 	Repeat int
+	// EpochOffset shifts the wall-clock instant of simulated time zero (seconds).
+	EpochOffset int64
 	// ReuseLinter makes the repeated executions use one Linter instance (library APIs only).
 	ReuseLinter bool
 	// After, when set, runs inside the simulation after the lint returned.
@@ -163,6 +166,9 @@ func RunLint(w *World, c *Chooser, o RunOpts) *LintResult {
 	}
 	cfg := kern.Config{Src: src, Disk: w.Disk, Cwd: w.Cwd, CPUs: w.CPUs, GoMaxProcs: w.GoMaxProcs, Tools: w.Tools, Faults: w.Faults,
 		MaxSteps: o.MaxSteps, KeepTrace: o.KeepTrace, NoPreempt: o.Canonical || c == nil}
+	if o.EpochOffset != 0 {
+		cfg.Epoch = time.Unix(1700000000+o.EpochOffset, 0)
+	}
 	rep := o.Repeat
 	if rep < 1 {
 		rep = 1
